@@ -195,6 +195,9 @@ def run(ctx):
         res.extra['model_evaluations'] = len(ops)
     res.extra['exhaustive_small_universe'] = exhaustive
     end_to_end(ctx, res)
+    ike_response_shapes(ctx, res)
+    import rogue
+    rogue.campaign(ctx, res, ctx.scale(10, 200), 50)
     return res
 
 
@@ -326,6 +329,76 @@ def end_to_end(ctx, res):
                     res.fail('e2e-child-suite', 'initiator CHILD_SA suite %s, the specification picks %s (requested by %s)' % (tr(me.child_sas[-1].proposal), want, who), rep)
             for key, what, at in h.findings[:2]:
                 res.fail(key, what, dict(rep, ops=S.ser_ops(h.ops[:at + 1])))
+
+
+def ike_response_shapes(ctx, res):
+    """an authentic responder whose IKE_SA_INIT response (and whose answer to an IKE_SA rekey) is not a proper choice from the
+    offer: a transform type missing, a transform twice, a foreign transform.  The responder signs what it sent, so AUTH verifies;
+    it is the initiator's own validation of the proposal that has to refuse it."""
+    import campaign as CP
+    import rogue as RG
+    import stateful as S
+    for where in ('init', 'rekey'):
+        for variant in ('drop-dh', 'drop-integ', 'drop-encr', 'drop-prf', 'extra-encr', 'foreign', 'honest'):
+            seed = ctx.rng.randrange(1 << 30)
+            conf = {'encr': ['aes256', 'aes128'], 'dpd': 3000, 'ike_lifetime': 100 if where == 'rekey' else 5000, 'ike_lifetime_b': 5000}
+            with CP.History(seed, trace=ctx.driver is not None, deep=True, **conf) as h:
+                h.oracles = [CP.o_no_escape, RG.o_ike_suite_complete]
+                w = h.w
+
+                def reshape(p):
+                    T = M.Transform
+                    if variant.startswith('drop-'):
+                        ty = {'dh': 4, 'integ': 3, 'encr': 1, 'prf': 2}[variant[5:]]
+                        p.transforms[:] = [t for t in p.transforms if int(t.type) != ty]
+                    elif variant == 'extra-encr':
+                        p.transforms.append(T(T.Type.ENCR, 12, 128))
+                    elif variant == 'foreign':
+                        p.transforms[:] = [t for t in p.transforms if int(t.type) != 3] + [T(T.Type.INTEG, 1)]
+                rep = {'seed': seed, 'scenario': 'ike-response-shape', 'where': where, 'variant': variant}
+                res.evaluations += 1
+                res.nontrivial.add(('ike-response', where, variant))
+                res.count('ike-response:%s:%s' % (where, variant))
+                if where == 'init':
+                    h.op('acquire', 'A', 8765)
+                    h.op('deliver', w.net[0].id)
+                    resp = w.net[0]
+                    w.net.clear()
+                    m = M.Message.parse(resp.data)
+                    reshape(m.get_payload(M.Payload.Type.SA).proposals[0])
+                    data = bytes(m.to_bytes())
+                    w.B.sas()[0].ike_sa_init_res_data = data
+                    h.op('inject', 'A', data, w.ip_b)
+                    h.settle(20)
+                else:
+                    if not h.establish('A'):
+                        continue
+                    h.op('tick', 106)                   # A starts the IKE_SA rekey
+                    a = next((s for s in w.A.sas() if int(s.state) == 13), None)
+                    b = RG.pair_of(w, a) if a is not None else None
+                    if a is None or b is None:
+                        res.count('ike-response:not-reached')
+                        continue
+                    w.net.clear()
+                    sa = next(p for p in a.request.encrypted_payloads if p.type == M.Payload.Type.SA)
+                    off = sa.proposals[0]
+                    tr, seen = [], set()
+                    for t in off.transforms:
+                        if t.type not in seen:
+                            seen.add(t.type)
+                            tr.append(t)
+                    p = M.Proposal(off.num, off.protocol_id, ctx.rng.rbytes(8), tr)
+                    reshape(p)
+                    dh = next((int(t.id) for t in off.transforms if int(t.type) == 4), 19)
+                    pl = [M.PayloadSA([p]), M.PayloadNONCE(), M.PayloadKE(dh, RG.Puppet(h, ctx.rng).dh_pub(dh))]
+                    h.op('inject', 'A', bytes(RG.protected(b, M.Message.Exchange.CREATE_CHILD_SA, pl, a.my_msg_id, True)), w.ip_b)
+                for key, what, at in h.findings[:2]:
+                    res.fail(key, what, dict(rep, ops=S.ser_ops(h.ops[:at + 1])))
+                if variant == 'honest' and where == 'init' and not any(int(s.state) == 10 for s in w.A.sas()):
+                    res.fail('honest-response-refused', 'an unmodified IKE_SA_INIT response was not accepted', rep)
+                if h.tr is not None:
+                    h.tr.close()
+                    S.deep_check(ctx, res, h.tr)
 
 
 def replay(rep):
